@@ -16,6 +16,9 @@
 //!                                        layout (round 3: the Repr-level models of C05 predict value, length and inline flag)
 //!        op: div rem divrem diveu remeu divremeu (IBig, the signed forms)  udivrem udiv urem (UBig on |a|, |b|)
 //!            and_F or_F xor_F with F in vv vr rv rr (IBig)  not notref  shr shrref shl shlref (IBig, b = amount)
+//!            round 4: gcd ugcd gcdext ugcdext sqrt sqrtrem nthroot unthroot pow upow (b = second operand / n / exponent)
+//!   ipar <u|i> radix x<hex text>         from_str_radix: value and layout (round 4)
+//!   (uint / int / rbig report the calls Hash::hash makes on a recording Hasher that overrides EVERY method of the trait)
 //!   fprod base mode op prec s1 e1 s2 e2  Context::<mode>::new(prec).op(x, y) on Reprs (op: add sub mul div inv sqrt sqr cubic): the
 //!                                        result Repr with its flag, the digit estimates of the operands, the layout of the significand
 //!   dub  base sig                        Repr::<base>::digits_ub / digits_lb of the significand with the f32 estimates they
@@ -23,7 +26,7 @@
 #![allow(deprecated)]
 use core::cmp::Ordering;
 use core::hash::{Hash, Hasher};
-use dashu_base::{AbsEq, AbsOrd, BitTest, DivEuclid, DivRem, DivRemEuclid, EstimatedLog2, RemEuclid, Sign as BSign, Signed, SquareRoot, UnsignedAbs};
+use dashu_base::{AbsEq, AbsOrd, BitTest, DivEuclid, DivRem, DivRemEuclid, EstimatedLog2, ExtendedGcd, Gcd, RemEuclid, Sign as BSign, Signed, SquareRoot, SquareRootRem, UnsignedAbs};
 use dashu_float::round::Round;
 use dashu_int::verif_hooks::{repr_layout_ibig, repr_layout_ubig};
 use hlib::*;
@@ -57,6 +60,48 @@ impl Hasher for Rec {
     fn write_isize(&mut self, i: isize) {
         self.sep();
         self.0.push_str(&format!("i{:x}", i));
+    }
+    // round 4: every other method of the trait is overridden too, so the token shows WHICH method an impl called
+    // (the model predicts write / write_usize / write_isize only)
+    fn write_u8(&mut self, i: u8) {
+        self.sep();
+        self.0.push_str(&format!("w8:{:x}", i));
+    }
+    fn write_u16(&mut self, i: u16) {
+        self.sep();
+        self.0.push_str(&format!("w16:{:x}", i));
+    }
+    fn write_u32(&mut self, i: u32) {
+        self.sep();
+        self.0.push_str(&format!("w32:{:x}", i));
+    }
+    fn write_u64(&mut self, i: u64) {
+        self.sep();
+        self.0.push_str(&format!("w64:{:x}", i));
+    }
+    fn write_u128(&mut self, i: u128) {
+        self.sep();
+        self.0.push_str(&format!("w128:{:x}", i));
+    }
+    fn write_i8(&mut self, i: i8) {
+        self.sep();
+        self.0.push_str(&format!("s8:{:x}", i));
+    }
+    fn write_i16(&mut self, i: i16) {
+        self.sep();
+        self.0.push_str(&format!("s16:{:x}", i));
+    }
+    fn write_i32(&mut self, i: i32) {
+        self.sep();
+        self.0.push_str(&format!("s32:{:x}", i));
+    }
+    fn write_i64(&mut self, i: i64) {
+        self.sep();
+        self.0.push_str(&format!("s64:{:x}", i));
+    }
+    fn write_i128(&mut self, i: i128) {
+        self.sep();
+        self.0.push_str(&format!("s128:{:x}", i));
     }
 }
 fn hash_input<T: Hash>(x: &T) -> String {
@@ -173,7 +218,7 @@ fn route_u(v: &str, route: &str, p: &str) -> UBig {
                 UBig::from(u128::try_from(&x).unwrap())
             }
         }
-        "dword" => UBig::from_dword(u128::try_from(&x).unwrap()),
+        "dword" => UBig::from_dword(dashu_int::DoubleWord::try_from(&x).unwrap()),
         "ibig" => UBig::try_from(IBig::from(x)).unwrap(),
         "negneg" => UBig::try_from(-(-IBig::from(x))).unwrap(),
         "setclr" => {
@@ -768,7 +813,7 @@ fn route_q(n: &str, d: &str, route: &str, p: &str) -> RBig {
         "signed" => RBig::from_parts_signed(-ibig(n), -IBig::from(ubig(d))),
         "const" => {
             let (s, m) = ibig(n).into_parts();
-            RBig::from_parts_const(s, u128::try_from(&m).unwrap(), u128::try_from(&ubig(d)).unwrap())
+            RBig::from_parts_const(s, dashu_int::DoubleWord::try_from(&m).unwrap(), dashu_int::DoubleWord::try_from(&ubig(d)).unwrap())
         }
         "scaled" => RBig::from_parts(ibig(n) * ibig(p), ubig(d) * ubig(p)),
         "addsub" => {
@@ -793,6 +838,15 @@ fn route_q(n: &str, d: &str, route: &str, p: &str) -> RBig {
             let x = rbig(n, d);
             x.sqr() / x
         }
+        // round 4: the mixed RBig (+|-) integer operators (built without a gcd: a + b i over b stays reduced)
+        "sub_int" => RBig::from_parts(ibig(n) + ibig(p) * IBig::from(ubig(d)), ubig(d)) - ibig(p),
+        "sub_int_ref" => &RBig::from_parts(ibig(n) + ibig(p) * IBig::from(ubig(d)), ubig(d)) - &ibig(p),
+        "int_sub" => ibig(p) - RBig::from_parts(ibig(p) * IBig::from(ubig(d)) - ibig(n), ubig(d)),
+        "add_int" => RBig::from_parts(ibig(n) - ibig(p) * IBig::from(ubig(d)), ubig(d)) + ibig(p),
+        "int_add" => ibig(p) + RBig::from_parts(ibig(n) - ibig(p) * IBig::from(ubig(d)), ubig(d)),
+        "sub_ubig" => RBig::from_parts(ibig(n) + IBig::from(ubig(p) * ubig(d)), ubig(d)) - ubig(p),
+        "ubig_sub" => ubig(p) - RBig::from_parts(IBig::from(ubig(p) * ubig(d)) - ibig(n), ubig(d)),
+        "relax_sub_int_canon" => (Relaxed::from_parts(ibig(n) + ibig(p) * IBig::from(ubig(d)), ubig(d)) - ibig(p)).canonicalize(),
         _ => panic!("unknown route {}", route),
     }
 }
@@ -803,7 +857,7 @@ fn route_x(n: &str, d: &str, route: &str, p: &str) -> Relaxed {
         "signed" => Relaxed::from_parts_signed(-ibig(n), -IBig::from(ubig(d))),
         "const" => {
             let (s, m) = ibig(n).into_parts();
-            Relaxed::from_parts_const(s, u128::try_from(&m).unwrap(), u128::try_from(&ubig(d)).unwrap())
+            Relaxed::from_parts_const(s, dashu_int::DoubleWord::try_from(&m).unwrap(), dashu_int::DoubleWord::try_from(&ubig(d)).unwrap())
         }
         "scaled" => Relaxed::from_parts(ibig(n) * ibig(p), ubig(d) * ubig(p)),
         "addsub" => {
@@ -818,6 +872,24 @@ fn route_x(n: &str, d: &str, route: &str, p: &str) -> Relaxed {
         "clone" => relaxed(n, d).clone(),
         "relax" => rbig(n, d).relax(),
         "as_relaxed" => rbig(n, d).as_relaxed().clone(),
+        // round 4: mixed Relaxed (+|-) integer operators build the Repr WITHOUT reduce2: the denominator is kept, so a result
+        // zero is 0/d with d != 1 (Relaxed 7/7 - 1 = 0/7); every comparison must still see the value
+        "sub_int" => Relaxed::from_parts(ibig(n) + ibig(p) * IBig::from(ubig(d)), ubig(d)) - ibig(p),
+        "sub_int_ref" => &Relaxed::from_parts(ibig(n) + ibig(p) * IBig::from(ubig(d)), ubig(d)) - &ibig(p),
+        "int_sub" => ibig(p) - Relaxed::from_parts(ibig(p) * IBig::from(ubig(d)) - ibig(n), ubig(d)),
+        "add_int" => Relaxed::from_parts(ibig(n) - ibig(p) * IBig::from(ubig(d)), ubig(d)) + ibig(p),
+        "int_add" => ibig(p) + Relaxed::from_parts(ibig(n) - ibig(p) * IBig::from(ubig(d)), ubig(d)),
+        "sub_ubig" => Relaxed::from_parts(ibig(n) + IBig::from(ubig(p) * ubig(d)), ubig(d)) - ubig(p),
+        "ubig_sub" => ubig(p) - Relaxed::from_parts(IBig::from(ubig(p) * ubig(d)) - ibig(n), ubig(d)),
+        "add_ubig" => Relaxed::from_parts(ibig(n) - IBig::from(ubig(p) * ubig(d)), ubig(d)) + ubig(p),
+        "sub_int_neg" => -(Relaxed::from_parts(ibig(p) * IBig::from(ubig(d)) - ibig(n), ubig(d)) - ibig(p)),
+        "sub_int_rv" => &Relaxed::from_parts(ibig(n) + ibig(p) * IBig::from(ubig(d)), ubig(d)) - ibig(p),
+        "sub_int_sqr" => {
+            // (x - p)^2 for a value that is 0 or 1: the square of 0/d is 0/d^2
+            let t = Relaxed::from_parts(ibig(n) + ibig(p) * IBig::from(ubig(d)), ubig(d)) - ibig(p);
+            t.sqr()
+        }
+        "sub_int_clone" => (Relaxed::from_parts(ibig(n) + ibig(p) * IBig::from(ubig(d)), ubig(d)) - ibig(p)).clone(),
         _ => panic!("unknown route {}", route),
     }
 }
@@ -939,6 +1011,31 @@ fn run_iop(a: &[&str]) -> String {
         }
         "udiv" => out.push_str(&ulay(&(x.clone().unsigned_abs() / y.clone().unsigned_abs()))),
         "urem" => out.push_str(&ulay(&(x.clone().unsigned_abs() % &y.clone().unsigned_abs()))),
+        // round 4: the remaining producers of integers
+        "gcd" => out.push_str(&ulay(&(&x).gcd(&y))),
+        "ugcd" => out.push_str(&ulay(&x.clone().unsigned_abs().gcd(y.clone().unsigned_abs()))),
+        "gcdext" => {
+            let (g, s, t) = (&x).gcd_ext(&y);
+            out.push_str(&ulay(&g));
+            out.push_str(&ilay(&s));
+            out.push_str(&ilay(&t));
+        }
+        "ugcdext" => {
+            let (g, s, t) = x.clone().unsigned_abs().gcd_ext(&y.clone().unsigned_abs());
+            out.push_str(&ulay(&g));
+            out.push_str(&ilay(&s));
+            out.push_str(&ilay(&t));
+        }
+        "sqrt" => out.push_str(&ulay(&x.sqrt())),
+        "sqrtrem" => {
+            let (s, r) = x.clone().unsigned_abs().sqrt_rem();
+            out.push_str(&ulay(&s));
+            out.push_str(&ulay(&r));
+        }
+        "nthroot" => out.push_str(&ilay(&x.nth_root(usize::try_from(&y).unwrap()))),
+        "unthroot" => out.push_str(&ulay(&x.clone().unsigned_abs().nth_root(usize::try_from(&y).unwrap()))),
+        "pow" => out.push_str(&ilay(&x.pow(usize::try_from(&y).unwrap()))),
+        "upow" => out.push_str(&ulay(&x.clone().unsigned_abs().pow(usize::try_from(&y).unwrap()))),
         "not" => out.push_str(&ilay(&!x.clone())),
         "notref" => out.push_str(&ilay(&!&x)),
         "shr" => out.push_str(&ilay(&(x.clone() >> usize::try_from(&y).unwrap()))),
@@ -1027,16 +1124,43 @@ fn run_dub(a: &[&str]) -> String {
     }
 }
 
+/// ipar <u|i> radix x<hex of the text>: from_str_radix, the value with its layout
+fn run_ipar(a: &[&str]) -> String {
+    let radix = u32::from_str_radix(a[1], 16).unwrap();
+    let hexs = a[2].strip_prefix('x').expect("x-prefixed hex").as_bytes();
+    let bytes: Vec<u8> = hexs.chunks(2).map(|p| u8::from_str_radix(std::str::from_utf8(p).unwrap(), 16).unwrap()).collect();
+    let s = std::str::from_utf8(&bytes).expect("case text must be UTF-8");
+    match a[0] {
+        "u" => match UBig::from_str_radix(s, radix) {
+            Ok(v) => format!("ok{}", ulay(&v)),
+            Err(e) => format!("err {:?}", e),
+        },
+        _ => match IBig::from_str_radix(s, radix) {
+            Ok(v) => format!("ok{}", ilay(&v)),
+            Err(e) => format!("err {:?}", e),
+        },
+    }
+}
+
 fn run(op: &str, a: &[&str]) -> String {
+    // the integer-level ops say which word size answered (W40 = 64 bits, W20 = the force_bits="32" build): the oracle
+    // evaluates the word-size generic models at exactly that size
+    let mark = |mut r: String| {
+        if r.starts_with("ok") {
+            r.push_str(&format!(" W{:x}", Word::BITS));
+        }
+        r
+    };
     match op {
-        "iop" => run_iop(a),
+        "ipar" => mark(run_ipar(a)),
+        "iop" => mark(run_iop(a)),
         "dub" => run_dub(a),
         "fprod" => run_fprod(a),
-        "uint" => run_uint(a),
-        "int" => run_int(a),
+        "uint" => mark(run_uint(a)),
+        "int" => mark(run_int(a)),
         "flt" => run_flt(a),
-        "rbig" => run_rbig(a),
-        "rlx" => run_rlx(a),
+        "rbig" => mark(run_rbig(a)),
+        "rlx" => mark(run_rlx(a)),
         _ => "err unknown-op".to_string(),
     }
 }
